@@ -9,7 +9,7 @@ EXPLANATION = ("One real MessagePassingComputation subclass is driven through a 
                "invocations == receptions, once each, in reception order; sender calls == posts, once each, in posting order.")
 ASSUMPTIONS = [
     "re-injected messages (priority below the default 20, addressed to the computation itself) are handled before any later reception, in injection order -- the (priority, counter) order of Messaging, checked by C18",
-    "messages are opaque tokens; 2 senders and 2 targets",
+    "messages are opaque tokens; 2 senders and 2 targets; the time stamp of each reception is an arbitrary real (symbolic)",
 ]
 BOUNDS = {"quick": "every history of <= 6 operations over {recv s0, recv s1, post t0, post t1, pause, resume, start}",
           "thorough": "every history of <= 8 operations"}
@@ -55,7 +55,9 @@ def run(eng, p):
             if op.startswith("recv"):
                 tok = "m%d" % len(received)
                 received.append(("s" + op[-1], tok))
-                comp.on_message("s" + op[-1], Message("tok", tok), float(step))
+                # the time stamp handed to on_message is the time the message was queued, unrelated to the hand-over order
+                # (priorities): an arbitrary real
+                comp.on_message("s" + op[-1], Message("tok", tok), eng.sym_real("t_%d" % len(received), 0, 1000))
             elif op.startswith("post"):
                 tok = "p%d" % len(posted)
                 posted.append(("t" + op[-1], tok))
